@@ -206,7 +206,15 @@ def build_harness():
         ovf = os.path.join(BUILD, "overlay.json")
         json.dump({"Replace": ov}, open(ovf, "w"), indent=1)
         binp = os.path.join(BUILD, "verifh")
-        rc, out = sh(["go", "build", "-tags", "verif conn_insecure", "-overlay", ovf, "-o", binp, "./internal/verifh"],
+        # API shape of the tree under test (compile-time only; behaviour is classified by the engines' observations):
+        # does CallbackStore.AddStreamCallback return a remover? (harness/cmd/verifh/streamadd_v1.go / _v2.go)
+        tags = "verif conn_insecure"
+        try:
+            if re.search(r"AddStreamCallback\(id string, fn CallbackFunc\) \(?(remove )?func\(\)\)?", open(os.path.join(REPO, "internal", "chain", "beacon", "store.go")).read()):
+                tags += " cbremover"
+        except OSError:
+            pass
+        rc, out = sh(["go", "build", "-tags", tags, "-overlay", ovf, "-o", binp, "./internal/verifh"],
                      cwd=REPO, env=GOENV)
         if rc != 0:
             raise Broken("harness:build", out[-3000:])
